@@ -242,7 +242,7 @@ static void exec_line(const char *line_in) {
         fprintf(fout, "%d z%zu m", r, sz); if (dst) memout(fout, (uint8_t *)dst, cap); else fputs("NULL", fout);
         /* x: what the property speaks about on success - the text and its terminator (the bytes of the destination after the terminator
            are not specified; they are part of m, which only the model comparison looks at) */
-        fputs(" x", fout); if (r && dst && sz + 1 <= cap) memout(fout, (uint8_t *)dst, sz + 1); else fputc('-', fout);
+        fputs(" x", fout); if (r && dst) memout(fout, (uint8_t *)dst, sz + 1 <= cap ? sz + 1 : cap); else fputc('-', fout);
         fprintf(fout, " e%d d%zu u%zu%s\n", (int)p->error_flags, binson_parser_get_depth(p), p->buffer_used, cb_left(p));
         free(dst);
     } else if (!strcmp(op, "tsH")) {
